@@ -203,8 +203,8 @@ fn c12_blackbox(ctx: &Ctx) -> Stats {
                 return st;
             }
         };
-        for _ in 0..(n / workers as u64 + 1) {
-            if ctx.out_of_time() {
+        for k in 0..(n / workers as u64 + 1) {
+            if k >= 1 && ctx.out_of_time() {
                 break;
             }
             let p = crate::gen::g_game_pos(&mut rng);
